@@ -20,7 +20,8 @@ Fixpoint lookup (l : list (rgba * N)) (c : rgba) : N :=
 Inductive c05_case :=
 | Case (cp : caps) (c : cmd) (oracle : list (rgba * N)) (impl : option (list N))
   (* several commands through ONE encoder object into one output *)
-| Stream (cp : caps) (cs : list cmd) (oracle : list (rgba * N)) (impl : option (list N)).
+    (* `pre`: bytes already in the output (a complete prefix) before the stream is encoded *)
+| Stream (cp : caps) (pre : list N) (cs : list cmd) (oracle : list (rgba * N)) (impl : option (list N)).
 
 Definition oracle_ok (d : depth) (l : list (rgba * N)) : bool :=
   match d with
@@ -28,11 +29,6 @@ Definition oracle_ok (d : depth) (l : list (rgba * N)) : bool :=
   | EightBit => forallb (fun kv => (16 <=? snd kv) && (snd kv <? 256)) l
   | Gray => forallb (fun kv => snd kv <? 4) l
   end.
-
-(* OSC 2 (window title) and OSC 0 (icon name and window title) both set the
-   title the command asks for; the predicate does not distinguish them *)
-Definition norm_op (o : op) : op :=
-  match o with OTitle 2 t => OTitle 0 t | _ => o end.
 
 Definition c05_check (k : c05_case) : bool * bool :=
   match k with
@@ -48,10 +44,10 @@ Definition c05_check (k : c05_case) : bool * bool :=
         match impl with
         | None => false                                            (* encoding never panics *)
         | Some ib =>
-            ops_eqb (map norm_op (vt_ops ib)) (map norm_op (denote pal pal cp c)) (* means exactly the command *)
+            ops_eqb (vt_ops ib) (denote pal pal cp c) (* means exactly the command *)
             && (is_raw c || vt_complete ib)                        (* complete, self-contained *)
         end )
-  | Stream cp cs oracle impl =>
+  | Stream cp pre cs oracle impl =>
       let pal := lookup oracle in
       ( match encode_stream pal pal cp cs, impl with
         | Ok bs, Some ib => nlist_eqb bs ib
@@ -62,7 +58,9 @@ Definition c05_check (k : c05_case) : bool * bool :=
         match impl with
         | None => false
         | Some ib =>
-            ops_eqb (map norm_op (vt_ops ib)) (map norm_op (flat_map (denote pal pal cp) cs)) && vt_complete ib
+            vt_complete pre
+            && ops_eqb (vt_ops (pre ++ ib)) (vt_ops pre ++ flat_map (denote pal pal cp) cs)
+            && vt_complete (pre ++ ib)
         end )
   end.
 
